@@ -150,6 +150,28 @@ func Eval(c Case) evid.Verdict {
 			return evid.Fail("identity:expiry", "reported expiry %v, sealed in ticket %v; %s", credsUntil, m.EndTime, ctx)
 		}
 		if c.Replay {
+			if c.ReplayAfter > 0 {
+				o := c
+				o.Replay, o.ReplayAfter, o.Suffix = false, 0, m.Suffix
+				for i := 1; i <= c.ReplayAfter; i++ {
+					o.CTimeOff = c.CTimeOff + int64(i) // another millisecond each: distinct authenticators of one client, all inside the window
+					om, err := o.Mint(SamplePAC())
+					if err != nil {
+						return evid.Fail("harness", "mint: %v", err)
+					}
+					var oap messages.APReq
+					if err := oap.Unmarshal(om.APReq); err != nil {
+						return evid.Fail("harness", "unmarshal: %v", err)
+					}
+					service.VerifyAPREQ(&oap, c.Settings(kt))
+				}
+				if time.Since(m.Now) > 60*time.Second {
+					Discarded.Lock()
+					Discarded.N++
+					Discarded.Unlock()
+					return evid.Pass() // far too slow a machine: the window has moved
+				}
+			}
 			var ap2 messages.APReq
 			if err := ap2.Unmarshal(m.APReq); err != nil {
 				return evid.Fail("harness", "second unmarshal: %v", err)
